@@ -16,7 +16,8 @@ TRUSTED_COMMON = [
 def load_cfg(prop):
     mod = importlib.import_module("gens." + prop.lower())
     cfg = {"id": prop, "mod": mod, "harness": mod.HARNESS,
-           "harness_bin": os.path.join(WORK, "bin", mod.HARNESS),
+           # one binary per run: concurrent checks that share a harness never replace each other's executable
+           "harness_bin": os.path.join(WORK, "bin", "%s.%d" % (mod.HARNESS, os.getpid())),
            "harness_args": getattr(mod, "HARNESS_ARGS", []),
            "groups": getattr(mod, "CONST_GROUPS", []),
            "timeout": getattr(mod, "TIMEOUT", 3600), "stall": getattr(mod, "STALL", 90),
@@ -240,4 +241,13 @@ def main():
 
 
 if __name__ == "__main__":
+    import atexit
+
+    def _cleanup():
+        for f in glob.glob(os.path.join(WORK, "bin", "*.%d" % os.getpid())):
+            try:
+                os.remove(f)
+            except OSError:
+                pass
+    atexit.register(_cleanup)
     sys.exit(main())
